@@ -506,10 +506,16 @@ class Cases:
         self.sweeps = []   # dict(coder, act, data, cmp, items, tag, cost)
         self.groups = []   # dict(tag, cmp, data, members=[(coder, act, slicing)])
 
-    def sweep(self, coder, data, cmp_, level, n_out=None, act="F", tag=""):
+    def sweep(self, coder, data, cmp_, level, n_out=None, act="F", tag="", items=None):
         rng = self.ctx.rng
+        exact_out = n_out is not None
         n_out = len(data) * 3 + 64 if n_out is None else n_out
-        items = sweep_items(rng, len(data), n_out, level, rng.randrange(1, 1 << 30))
+        if items is None:
+            items = sweep_items(rng, len(data), n_out, level, rng.randrange(1, 1 << 30))
+            # output windows that end within the last bytes of the output (the coder has consumed all its input and only
+            # has held-back bytes left to deliver): "everything but the last k bytes, then the rest"
+            if exact_out and level != "full" and n_out >= 1 and not coder.startswith(("microe", "indexe")):
+                items = items + ["O:%d:%d:1" % (max(0, n_out - 12), n_out)]
         cost = est_runs(items, len(data), n_out) * (len(data) + n_out + 200)
         self.sweeps.append(dict(coder=coder, act=act, data=data, cmp=cmp_, items=items, tag=tag, cost=cost, level=level))
 
@@ -537,6 +543,24 @@ def xz_index_field(data):
     if bsz + 12 > len(data) - 12:
         return None
     return data[len(data) - 12 - bsz:len(data) - 12]
+
+
+def xz_index_records(data):
+    """(unpadded size, uncompressed size) of every Record of the Index of a single-Stream .xz file, or None."""
+    ix = xz_index_field(data)
+    if ix is None or not ix or ix[0] != 0:
+        return None
+    n, o = _vli(ix, 1)
+    if n is None or n > 100000:
+        return None
+    recs = []
+    for _ in range(n):
+        u, o = _vli(ix, o)
+        v, o = _vli(ix, o) if u is not None else (None, o)
+        if u is None or v is None:
+            return None
+        recs.append((u, v))
+    return recs
 
 
 def build_cases(ctx, H):
@@ -717,6 +741,17 @@ def build_cases(ctx, H):
             if bs_ck.startswith("4096") or bs_ck.startswith("8192"):
                 enc(members[-1][0], pl, "xz-mt", dict(level="light", multiblock=True))
 
+    # Blocks WITH size fields in their headers (only the threaded encoder writes them) behind a BCJ filter: the Block decoder's
+    # in/out limit logic meets a filter that still holds decoded bytes back after LZMA2 has consumed its end marker.
+    bcj_mt = [chain(b, small) for b in (BCJ if not quick else rng.sample(BCJ, 3))]
+    bcj_mt += [chain(("delta", rng.choice((1, 4))), rng.choice(BCJ), small), chain(rng.choice(BCJ), ("delta", 2), small)]
+    if not quick:
+        bcj_mt += [chain((b, BCJ_ALIGN[b] * rng.randrange(1, 999)), small) for b in rng.sample(BCJ, 3)] + [chain("x86", "arm64", small)]
+    for (ss, ts) in bcj_mt:
+        for n in ((4096 * 2 + rng.randrange(1, 4096),) if quick else (4096 * 2 + rng.randrange(1, 4096), 4096 * 3, 4096 + rng.randrange(1, 12), 700)):
+            pl = gen_plain(rng, n, "code")
+            enc("semt:%d:0:4096:%d:%s" % (rng.choice((1, 2, 3)), rng.choice(checks), ss), pl, "xz-mt", dict(level="mt", multiblock=True, mtbcj=True))
+
     # ---- phase A: run the encoders whole-buffer to obtain their output (also the encoders' reference) ----------------
     lines = ["run %s F %s fresh full W" % (c, hx(pl)) for (c, pl, _, _) in enc_jobs]
     outs = H.run(lines, costs=[len(pl) + 1000 for (_, pl, _, _) in enc_jobs])
@@ -760,6 +795,28 @@ def build_cases(ctx, H):
     def dec_level(comp, pl):
         return level_for(len(comp), len(pl))
 
+    for comp, pl, extra in made["xz"]:
+        if not extra.get("mtbcj"):
+            continue
+        recs = xz_index_records(comp)
+        if not recs:
+            continue
+        bounds, acc = [], 0
+        for (_, u) in recs:
+            acc += u
+            bounds.append(acc)
+        tiny = ["B:5", "B:8", "B:9", "B:10", "B:11", "B:12"]
+        near = []
+        for b in bounds:
+            near += ["O:%d:%d:1" % (max(0, b - 12), b + 1)]
+        its = tiny + near + ["X:%d:8:%d" % (rng.randrange(1, 1 << 30), len(pl) + 3), "R:%d:3:400:%d:7:10" % (rng.randrange(1, 1 << 30), len(comp))]
+        ck = comp[7] & 0x0F
+        decs = ["sd:0:0", "sd:%d:0" % CONCAT, "auto:%d:0" % rng.choice((0, TELL_ANY)), "sdmt:0:1:0:0:0", "sdmt:0:2:0:0:0", "sdmt:0:2:0:1:0"]
+        for d in (decs if not quick else ["sd:0:0", rng.choice(decs[1:3]), rng.choice(decs[3:])]):
+            C.sweep(d, comp, "m" if d.startswith("sdmt") else "a", "mt", len(pl), "F", "gen-xz-mt-bcj", items=list(its))
+        # the first Block alone through lzma_block_decoder
+        b0 = ["O:%d:%d:1" % (max(0, bounds[0] - 12), bounds[0] + 1)]
+        C.sweep("blockd:%d:0" % ck, comp[12:], "a", "mt", bounds[0], "F", "gen-xz-mt-bcj", items=tiny + b0)
     sel = made["xz"] if not quick else rng.sample(made["xz"], min(len(made["xz"]), 40))
     sel += [x for x in made["xz"] if x[2].get("multiblock") and x not in sel]
     for comp, pl, extra in sel:
